@@ -83,8 +83,8 @@ pub fn c01_shapes(thorough: bool, seed: u64) -> Vec<Shape> {
         }
     } else {
         let mut rng = rand_chacha::ChaChaRng::seed_from_u64(seed ^ 0xc01);
-        for k in 0..8 {
-            v.push(random_shape(&mut rng, &format!("random{}", k), 4));
+        for k in 0..32 {
+            v.push(random_shape(&mut rng, &format!("random{}", k), if k % 4 == 3 { 8 } else { 4 }));
         }
     }
     v
@@ -206,8 +206,8 @@ pub fn c02_cases(thorough: bool, seed: u64) -> Vec<(Shape, ErrPlan)> {
             v.push((s, e));
         }
     }
-    if thorough {
-        for s in c01_shapes(true, seed) {
+    {
+        for s in c01_shapes(thorough, seed) {
             let (a, b) = s.gates();
             if a + b == 0 && n_explicit_cons(&s) == 0 {
                 continue;
@@ -237,6 +237,12 @@ pub fn c03_shapes(thorough: bool, seed: u64) -> Vec<Shape> {
         Shape::new("pending_allocation_then_closure_allocation", &[Commit, Alloc], &[&[Chal, Alloc, Con]]),
         Shape::new("empty_combination_first", &[Commit, AllocMul, ConEmpty, Con], &[]),
     ];
+    if !thorough {
+        let mut rng = rand_chacha::ChaChaRng::seed_from_u64(seed ^ 0xc03);
+        for k in 0..12 {
+            v.push(random_shape(&mut rng, &format!("random{}", k), if k % 4 == 3 { 8 } else { 4 }));
+        }
+    }
     if thorough {
         v.push(Shape::new("five_gates_pad8", &[Commit, AllocMul, AllocMul, Mul, Alloc, Alloc, Con], &[&[Chal, AllocMul, Con]]));
         v.push(Shape::new("eight_gates", &[AllocMul, AllocMul, AllocMul, AllocMul, AllocMul, AllocMul, AllocMul, AllocMul, Con], &[]));
